@@ -1,5 +1,5 @@
 (** Types of the table values that tools/fragments_sched.py extracts for the scheduling model (C11). *)
-From CM Require Export Base.Str.
+From CM Require Export Base.Str Base.TableTypes.
 
 (** base_codemod._apply: the argument list of [ThreadPoolExecutor(...)].
     [pool_size_arg : option pool_arg]; [None] = [ThreadPoolExecutor()] (the library default min(32, cpu+4)). *)
@@ -11,10 +11,6 @@ Inductive collect_form :=
 | MapInputOrder      (* contexts = executor.map(process_file, files); process_results(contexts) after the with block *)
 | CompletionOrder.   (* results taken in the order the futures complete (as_completed) *)
 
-(** registry.load_registered_codemods: what the [for entry_point in ...] loop iterates over. *)
-Inductive iter_form :=
-| OverSet            (* set(entry_points().select(group="codemods")): order chosen by the hash seed *)
-| Deterministic.     (* dict.fromkeys(...) / the sequence itself: first occurrences, in sequence order *)
 
 (** code_directory.match_files: order of the returned paths. *)
 Inductive order_form :=
